@@ -69,6 +69,12 @@ def cases(tier):
         for ti, tgt in enumerate(TARGETS):
             for route in ('cls', 'cfg', 'potable') + (('proc',) if tgt != 'excel_eam_fs' else ()):
                 out.append(dict(m=m, route=route, target=tgt))
+    for m in EK.api_option_models(True):
+        for tgt in ('setfl_fs', 'DL_POLY_EAM_fs'):
+            if ('title' in m and tgt == 'setfl_fs') or ('comments' in m and tgt != 'setfl_fs'):
+                continue
+            for route in (('proc',) if ('comments' in m or 'title' in m) else ('cls', 'proc')):
+                out.append(dict(m=m, route=route, target=tgt))
     for i, m in enumerate(EK.label_models(True, tier)):
         for ti, tgt in enumerate(('setfl_fs', 'DL_POLY_EAM_fs')):
             for route in (('cls', 'proc', 'cfg', 'potable') if tier != 'quick' else (('cls', 'proc')[(i + ti) % 2], ('cfg', 'potable')[(i // 2) % 2])):
